@@ -912,6 +912,12 @@ class ProcessingPipeline:
         self.field_name_applied_ids = defaultdict(set)
         self.field_mappings = FieldMappingTracking()
         self.state = dict()
+        return self._apply_items(rule)
+
+    def _apply_items(
+        self, rule: SigmaRule | SigmaCorrelationRule
+    ) -> SigmaRule | SigmaCorrelationRule:
+        """Apply the processing items on the rule with the current state and tracking information."""
         for item in self.items:
             applied = item.apply(rule)
             self.applied.append(applied)
